@@ -9,6 +9,7 @@ import Pushr.Spec.C08
 import Pushr.Spec.C09
 import Pushr.ListRec
 import Pushr.Spec.C15
+import Pushr.Spec.C10
 /-! `exec` / `step` requests: one observed transition of the real interpreter state. -/
 open Pushr Codec
 
@@ -237,6 +238,46 @@ def c19Eval : PropEval := fun i pre post =>
      | _, _ => none)
   | _, _ => none
 
+/-- the contents of a field as canonical strings (stacks top first) -/
+def fieldItems (f : C10.Field) (s : State) : List String :=
+  match f with
+  | .bool => s.bool.map encBool | .int => s.int.map encI32 | .float => s.float.map encF32
+  | .name => s.name.map encName | .code => s.code.map encItem | .exec => s.exec.map encItem
+  | .index => s.index.map fun (c, d) => toString c ++ "/" ++ toString d
+  | .bvec => s.bvec.map encBv | .ivec => s.ivec.map encIv | .fvec => s.fvec.map encFv
+  | .input => [encBuf encMsg s.input] | .output => [encBuf encMsg s.output] | .graph => [encBuf encGraph s.graph]
+  | .bindings => s.bindings.map fun (k, v) => encName k ++ "=" ++ encItem v
+  | .quote => [encBool s.quote] | .send => [encBool s.send] | .cfg => [encCfg s.cfg]
+
+def isStackField : C10.Field → Bool
+  | .bool | .int | .float | .name | .code | .exec | .index | .bvec | .ivec | .fvec => true
+  | _ => false
+
+def fieldName : C10.Field → String
+  | .bool => "BOOLEAN" | .int => "INTEGER" | .float => "FLOAT" | .name => "NAME" | .code => "CODE" | .exec => "EXEC"
+  | .index => "INDEX" | .bvec => "BOOLVECTOR" | .ivec => "INTVECTOR" | .fvec => "FLOATVECTOR" | .input => "INPUT"
+  | .output => "OUTPUT" | .graph => "GRAPH" | .bindings => "bindings" | .quote => "quote flag" | .send => "send flag" | .cfg => "configuration"
+
+/-- C10: missing arguments never fabricate results; instructions touch only their stacks -/
+def c10Eval : PropEval := fun i pre post =>
+  match post with
+  | none => none
+  | some post =>
+    let fp := C10.footprint i
+    -- frame
+    match C10.Field.all.find? (fun f => !fp.contains f && fieldItems f pre != fieldItems f post) with
+    | some f => some (i.str ++ " changed " ++ fieldName f ++ ", which is outside its documented operands and results")
+    | none =>
+      if C10.operandsMet i pre then none
+      else
+        -- an operand is missing: nothing may be pushed or created
+        match C10.Field.all.find? (fun f =>
+            let a := fieldItems f pre
+            let b := fieldItems f post
+            if isStackField f then !(b.length ≤ a.length && a.drop (a.length - b.length) == b) else a != b) with
+        | some f => some (i.str ++ " lacks an operand but " ++ fieldName f ++ " was not merely popped")
+        | none => none
+
 /-- C15: one step may grow the state only by a modest function of its size -/
 def c15Eval : PropEval := fun i pre post =>
   match post with
@@ -251,7 +292,7 @@ def c15Eval : PropEval := fun i pre post =>
 
 def propEvals : List (String × PropEval) :=
   [("C01", panicFree), ("C04", c04Eval), ("C05", c05Eval), ("C06", c06Eval), ("C07", c07Eval), ("C08", c08Eval),
-   ("C09", c09Eval), ("C19", c19Eval), ("C15", c15Eval)]
+   ("C09", c09Eval), ("C19", c19Eval), ("C15", c15Eval), ("C10", c10Eval)]
 
 /-- instruction names in the scope of a property's single-instruction scenario -/
 def scopeOf (pid : String) : List Instr :=
